@@ -73,3 +73,36 @@ _c("C08",
    "The theorems are conditional on the measured table (dynamic, per explored call) - partial by construction: table_reproducible_partial, table_isolated_partial; sha1 digests stand for bit-identity; hash randomisation, threads, BLAS outside the model. "
    "Known findings D11b, D12b (what remains after the D11/D12 repairs).",
    technique="Lean 4 proof (agreement/frame invariants over an abstract stream semantics) + dependency table regenerated from measurements of the real components on every run, obligations closed by decide + whole-program differential replays")
+_c("C04",
+   "48 theorems (Props/C04.lean) over any ordered field and all sizes: GEBV/GEGV/predict are the stated linear forms (intercept contrast [1,1/q,..]); equivariance under any taxon index list with labels; phased = unphased projection = raw dosage; "
+   "marker-block additivity; var_A/var_G/var_a/bulmer/score definitions; the twelve favourable/deleterious/neutral allele functions equal their definitions and are mutually consistent; rrBLUP: intercept = training mean, monomorphic markers get exactly 0, "
+   "Gauss-Seidel never raises the energy so penalised SSE(u_hat) <= penalised SSE(0) for every tolerance and sweep limit, residual identity.",
+   "Nelder-Mead/eigh only through 'ridge > 0' (ridge recorded); BreedingValueMatrix round trip is C15's. Partial: normal_equations_partial (|residual| <= atol*row sums only when the loop stopped by tolerance). "
+   "Known finding D22: gauss_seidel silently returns the unconverged iterate after maxiter=1000 sweeps on ill-conditioned n>p training sets (counterexample proved with decide +kernel).")
+_c("C07",
+   "28 theorems (Props/C07.lean): for every duplicate-free decision, shape and draw sequence the subset configuration has shape (ncross,nparent), entries in the decision, each member used q or q+1 times, and on exit no exchange of two entries lowers the "
+   "number of self-pairings (hill-climb terminates; for two-way crosses no self-pairing at all); integer/binary encodings: support and count bounds; mate selection rows are cross-map rows; the cross map lists exactly the ascending k-tuples once; "
+   "the sorting optimiser returns the top-k set (unique and permutation-equivariant when values are distinct, value-equivariant with ties); multi-objective choice = first argmax of weighted transformed front.",
+   "stochastic_universal_sampling is an oracle input here (C17 owns it); objective evaluation is C05's; stochastic optimisers replaced by scripted fronts (C06). Partial: integer_share_partial, real_xconfig_partial, mate_real_xconfig_partial, "
+   "truncation_unique_partial, truncation_perm_equivariant_partial, uc_integer_bounds_partial. Known findings: D7 (SUS pointer count, C17's), D20 (integer remainder drawn from repeated options: shares off by up to d_i), "
+   "D21 (UC integer problem bounds raise for ncross >= 2).")
+_c("C18",
+   "31 theorems (Props/C18.lean): block counts per chromosome are >= 1 and sum to the request for any positions; every marker gets one label, labels are monotone along the genome and chromosome ranges are disjoint; haplobin_bounds is the run-length "
+   "partition of [0,p); #blocks <= requested with equality exactly when every equal-width bin holds a marker; block values over the produced blocks sum to the copy's total additive value for every trait; OHV = ploidy * sum of per-block best candidates, "
+   ">= every doubled haploid that recombines only at block boundaries, and attained; OPV definition; monotone in the parent set. A model of the proposed repair is proved to meet the full statement (patched_uses_requested_total).",
+   "numpy linspace/argmin as modelled; labels compared with the model run on numpy's own float boundaries. Partial: uses_requested_total_partial, hmat_fibre_conserved_partial, haplomat_finite_partial (all need 'every equal-width bin filled'). "
+   "Known finding D10: an empty equal-width bin gives fewer blocks than requested and uninitialised (numpy.empty) block columns (counterexamples proved).")
+_c("C09",
+   "29 theorems (Props/C09.lean) over any ordered field, all matrices/sizes/ploidies: every statistic equals its textbook definition on the raw calls; afreq in [0,1] and exactly 0/1 iff all copies equal; afixed = not apoly (both classes); ploidy+1 genotype classes "
+   "summing to ntaxa; all 13 outputs of a phased matrix equal those of its projection; div_form_exact: for ANY monotone rounding fixing 0,1,e,1-e, rnd(c/m) is 1 iff c=m and 0 iff c=0 (m*e <= 1), lifted through afreq/afixed/apoly and dtype casts.",
+   "numpy integer sums / one correctly rounded division / casts abstracted by RoundingContract. Partial: afreq_rounded_exact_partial, pafreq_rounded_exact_partial, afreq_cast_exact_partial (bound ploidy*ntaxa*halfulp <= 1 is tight: counterexample). "
+   "The pre-repair reciprocal form and nphase+1 classes are kept as Float/decide counterexamples (D1/D16, D2 - fixed in /repo).")
+_c("C10",
+   "13 theorems (Props/C10.lean): lsl <= gebv(member) <= usl and collapse when all loci are fixed, for every population and effect vector (phased and unphased); every one of the seven mating protocols (literal segment-copy loop, any draws, any nself, "
+   "any counts) and select_taxa is a closed step (every progeny allele at locus j occurs in the parents at j); hence along EVERY closed history usl never increases, lsl never decreases, every descendant lies within every ancestor's limits, lost alleles stay lost.",
+   "Partial: limits_rounded_exact_partial (float comparisons p>0, p>=1 agree with exact ones for ploidy*ntaxa <= 2^53). Z@u and BreedingValueMatrix scale/unscale compared with tolerance; draws recorded and replayed for matings up to 900 uniforms.")
+_c("C15",
+   "33 theorems (Props/C15.lean): unscale(from_numpy(raw)) = raw for every matrix and ANY sqrt function incl. constant and all-NaN traits; NaN stays NaN and does not influence other taxa; stored traits are centred with unit variance (constant trait: scale 1); "
+   "tmax/tmin/trange/tmean/targmax/targmin (unscale=True) equal numpy's on the raw trait; select_taxa entry law; histories of select/delete/insert/adjoin (+ in-place reorder/remove for raw values) refine the same edits on raw data; DenseScaledMatrix transform/untransform/rescale laws.",
+   "numpy.sqrt through its contract; taxa labels are C03's. Partial: history_*_partial (the four class-defined ops), tstd/tvar_unscaled_partial. Known findings: D9 (tstd/tvar of a constant trait = 1), D23 (inherited concat_taxa concatenates standardised values), "
+   "D24 (inherited in-place append/incorp use the receiver's location/scale), D25 (in-place remove leaves location/scale stale), D26 (constant trait with inexact float mean gets scale 1e-17) - counterexamples proved.")
